@@ -116,7 +116,18 @@ let handle kind fs obs =
     let atoms = (if field fs "atoms" <> "-" then Some (List.map parse_atom (split_on ',' (field fs "atoms")))
                  else match parse (nlist_of_hex (field fs "text")) with Ok (Inr a) -> Some a | _ -> None) in
     (match atoms with
-     | None -> ("parse-error", false, false, "exec,unparsable", None)
+     | None ->
+       (* the text is rejected by the model parser.  A CAPACITY limit of the compiled form (an alternative of 256 atoms or
+          more: SubOverflow; more than 255 save slots: SaveOverflow; a skip beyond 16383: ManyOverflow) is part of the
+          parser the model mirrors, not of the documented syntax: when the implementation reports the same error at the
+          same position the case is a limit case, not a failure (thorough sweep, seed 1: an alternative holding a long
+          string).  Any other rejection of a generated pattern remains a failure. *)
+       (match parse (nlist_of_hex (field fs "text")) with
+        | Ok (Inl (e, pos)) ->
+          let mobs = Printf.sprintf "parse-error_ParsePatError_{_kind:_%s,_position:_%d_}" (show_err e) (int_of_nat pos) in
+          let capacity = (match e with SubOverflow | SaveOverflow | ManyOverflow -> true | _ -> false) in
+          (mobs, capacity && obs = mobs, false, (if capacity then "exec,capacity-limit" else "exec,unparsable"), None)
+        | _ -> ("parse-error", false, false, "exec,unparsable", None))
      | Some atoms ->
        let slots = int_of_string (field fs "slots") in
        let save0 = List.init slots (fun _ -> n_of_string "1431655765") in
